@@ -1,6 +1,7 @@
 SPECIFICATION TSpec
 CONSTANTS Configs <- CfgTrace AddProgs <- PTrace NClosers = 3 AllowCancel = TRUE ConsKinds <- Both MaxNow = 0
   AdvIdleOnly = FALSE UseMonitor = FALSE CloseFix = TRUE Variant = "ok"
+  NRun2 <- R2Trace
 CONSTRAINT Done
 INVARIANTS WaitGroupExact TypeOK
 CHECK_DEADLOCK FALSE
